@@ -47,6 +47,13 @@ CATALOGUE = {
     'vx_sm': [
         ('sm_f64', 'TSM', 'float64', True),
     ],
+    # every field optional and without default: nothing at all may be stored for a trajectory
+    'vx_o': [
+        ('o_f64', 'T', 'float64', False),
+        ('o_i32', 'T', 'int32', False),
+        ('o_str', 'T', 'str', False),
+        ('o_f32', 'T', 'float32', False),
+    ],
     'vx_wide': [
         ('w0', 'TSP', 'float64', True),
         ('w1', 'TSP', 'float64', True),
